@@ -80,3 +80,39 @@ Print Assumptions C12_tree_inv_reachable_with_normalize.
 Print Assumptions C12_tree_inv_normalize.
 Print Assumptions C12_navigation_agrees_reachable_with_normalize.
 Print Assumptions C12_normalize_example.
+
+(** ** histories that contain calls on the read-only maps of a document type (Model/DomReadOnly.v; see Properties/C13.v)
+
+    [DocumentType::entities()] / [notations()] return maps whose [set_named_item] / [remove_named_item] answer
+    [NoModificationAllowedErr] and change nothing ([C12_readonly_world_unchanged]); a history [xop] that mixes them
+    with the 27 operations and [normalize] ends in the world of the history without them ([C12_run_x_erase]), so the
+    tree invariant and the navigation clauses hold along it. *)
+From XmlRs Require Import Model.DomReadOnly Proofs.DomReadOnly.
+
+Theorem C12_readonly_world_unchanged : forall w o, fst (step_ro w o) = w.
+Proof. exact step_ro_world. Qed.
+
+Theorem C12_run_x_erase : forall ops w, run_x w ops = run_n w (nops_of ops).
+Proof. exact run_x_erase. Qed.
+
+Theorem C12_tree_inv_reachable_with_readonly : forall init xs, WInv init -> WInv (run_x init xs).
+Proof. exact tree_inv_reachable_with_readonly. Qed.
+
+Theorem C12_navigation_agrees_reachable_with_readonly :
+  forall init xs k s, WInv init -> doc_at (run_x init xs) k = Some s -> NavAgree s.
+Proof. exact navigation_agrees_reachable_with_readonly. Qed.
+
+(** non-trivial instance: a document whose document type declares two entities and a document without document type;
+    ten calls (by name, by index, absent name, both maps, receiver = document / document type node, the document type
+    removed in between) *)
+Example C12_readonly_example :
+  run_x ro_world ro_ops = fst (step ro_world (RemoveChild (0, 1) (0, 2)))
+  /\ WInv (run_x ro_world ro_ops)
+  /\ (forall s, doc_at (run_x ro_world ro_ops) 0 = Some s -> NavAgree s).
+Proof. exact ro_example_world. Qed.
+
+Print Assumptions C12_readonly_world_unchanged.
+Print Assumptions C12_run_x_erase.
+Print Assumptions C12_tree_inv_reachable_with_readonly.
+Print Assumptions C12_navigation_agrees_reachable_with_readonly.
+Print Assumptions C12_readonly_example.
